@@ -107,14 +107,16 @@ UNITS.append(_u)
 # ---------------------------------------------------------------- descriptor writer (C16) and file writer (C15)
 WI_C = '''
 __CPROVER_requires(__CPROVER_w_ok($this, sizeof(*$this)) && g_exc == 0 && !g_lost && __CPROVER_r_ok($1, $2) && $2 < (1UL << 31))
-__CPROVER_assigns(g_lost, g_exc)
+__CPROVER_requires(g_os_accepted == 0 && !g_w_bad && !g_w_err && g_w_base == $1 && g_w_size == $2)
+__CPROVER_assigns(g_lost, g_os_accepted, g_w_bad, g_w_err, g_errno, g_exc)
 __CPROVER_ensures(g_exc == 0 || g_exc == EXC_CborOutputException)
-__CPROVER_ensures((g_exc == 0) == !g_lost)
+__CPROVER_ensures(g_exc == 0 ==> (g_os_accepted == $2 && !g_w_bad))
+__CPROVER_ensures((g_os_accepted == $2 && !g_w_bad && !g_w_err) ==> g_exc == 0)
 '''
 UNITS.append(Unit('out.fd.write', ('@_ZN4CDNS6WriterIiE5writeEPKcm', None), contract=WI_C, prelude=P, stubs=['lib_write'],
-                  setup='  static struct Writer_i32 obj; static char data[4096]; unsigned long a_n; __CPROVER_assume(a_n <= 4096);\n  g_lost = 0;\n',
+                  setup='  static struct Writer_i32 obj; static char data[4096]; unsigned long a_n; __CPROVER_assume(a_n <= 4096);\n  g_lost = 0; g_os_accepted = 0; g_w_bad = 0; g_w_err = 0; g_w_base = data; g_w_size = a_n;\n',
                   args=['&obj', 'data', 'a_n'], props=['C16'], timeout=300, post='  if (g_exc != 0) { CANARY("failure reachable"); }',
-                  note='a rejected or short ::write raises CborOutputException; normal return iff every byte was accepted (sizes < 2^31: the result is compared as int)'))
+                  note='normal return iff the OS accepted every byte of the chunk, each offered once and in order (a rejected or short ::write that is not made up for raises CborOutputException; a correct retry loop would satisfy the same contract); sizes < 2^31: the result is compared as int'))
 PART_LIT = '31338177036UL'   # identity the lowering gives the literal ".part" (crc32 of its spelling + length)
 NAME_INV = "(!g_f_open || (g_f_base == __CPROVER_uninterpreted_concat($this->m_value.id, $this->m_extension.id) && g_f_path == __CPROVER_uninterpreted_concat(g_f_base, g_f_suffix) && g_f_suffix == PART_LIT))".replace('PART_LIT', PART_LIT)
 WS_CLOSE = '''
